@@ -1,7 +1,161 @@
 package main
 
-import "verifharness/internal/vh"
+// Known-finding probe, the real-ticker eviction scenario, and the thorough-tier race exploration.
 
-func probes(c *vh.Ctx)          {}
-func tickerScenario(c *vh.Ctx)  {}
-func raceExploration(c *vh.Ctx) {}
+import (
+	"context"
+	"fmt"
+	"os"
+	"os/exec"
+	"path/filepath"
+	"strings"
+	"time"
+
+	"github.com/youchainhq/go-youchain/core"
+	"verifharness/internal/vh"
+)
+
+// F-C20a: a pending run demoted by removing its first transaction is not re-capped.
+var probeF20a = []string{
+	"init 8 16 1 2 10 1000 100000 1 0 1000000000000",
+	"add 0 4 1 0 0 5001 21000 1 21000 0 2 0 1 5002 21000 1 21000 0 3 0 2 5003 21000 1 21000 0 4 0 3 5004 21000 1 21000 0",
+	"remove 1 1 0 0 5001 21000 1 21000 0",
+}
+
+func probes(c *vh.Ctx) {
+	ci, err := parseCase(probeF20a)
+	if err != nil {
+		c.Res.Fail("crash", "", "probe F-C20a unreadable: "+err.Error(), "")
+		return
+	}
+	_, f, _, err := runCase(nil, ci, nil, 0)
+	if err != nil {
+		c.Res.Fail("crash", "", "probe F-C20a could not run: "+err.Error(), "")
+		return
+	}
+	p := vh.Probe{ID: "F-C20a", Reproduced: f != nil && f.matcher == matcherQueueCap}
+	if p.Reproduced {
+		p.What = f.what
+	} else if f != nil {
+		p.What = "probe failed differently: " + f.what
+		rp := vh.WriteReplay(c.ReplayDir, "C20", "probe-f20a-other", c.Seed, []string{f.kind + ": " + f.clause, f.what}, probeF20a)
+		c.Res.Fail(f.kind, "", "probe F-C20a: "+f.what, rp)
+	} else {
+		p.What = "queue limits held after a demotion: the finding no longer reproduces"
+	}
+	c.Res.Probes = append(c.Res.Probes, p)
+}
+
+// tickerScenario exercises the REAL eviction ticker of loop(): with a short interval every queued transaction of a
+// non-local account without heartbeat is evicted at the next tick, local ones stay, pending ones stay, and the
+// oracle holds afterwards. Outcome is polled (bounded), never slept on blindly.
+func tickerScenario(c *vh.Ctx) {
+	old := core.VerifC20SetEvictionInterval(15 * time.Millisecond)
+	defer core.VerifC20SetEvictionInterval(old)
+	lines := []string{
+		"init 4 16 4 16 10 1000 100000 3 0 1000000000000 0 1000000000000 0 1000000000000",
+		"add 0 2 1 0 0 5001 21000 1 21000 0 2 0 2 5002 21000 1 21000 0", // account 0: pending 0, queued 2
+		"add 0 1 3 1 3 5003 21000 1 21000 0",                            // account 1: queued only (no heartbeat)
+		"add 1 1 4 2 5 5004 21000 1 21000 0",                            // account 2: local, queued only
+	}
+	ci, err := parseCase(lines)
+	if err != nil {
+		c.Res.Fail("crash", "", "ticker scenario unreadable", "")
+		return
+	}
+	w, err := newWorld(ci.cfg, ci.accts)
+	if err != nil {
+		c.Res.Fail("crash", "", "ticker scenario: "+err.Error(), "")
+		return
+	}
+	defer w.close()
+	pre := w.dump()
+	for _, o := range ci.ops {
+		if _, e := w.exec(o, pre); e != nil {
+			c.Res.Fail("crash", "", "ticker scenario: "+e.Error(), "")
+			return
+		}
+		pre = w.dump()
+	}
+	deadline := time.Now().Add(3 * time.Second)
+	var v *view
+	for {
+		v = w.dump()
+		if len(v.queue[1]) == 0 || time.Now().After(deadline) {
+			break
+		}
+		time.Sleep(5 * time.Millisecond)
+	}
+	c.Res.Dist("real-ticker-scenario")
+	var what string
+	switch {
+	case len(v.queue[1]) != 0:
+		what = "queued transaction of a remote account without heartbeat survived the eviction ticks"
+	case len(v.queue[2]) != 1:
+		what = "queued transaction of a local account was evicted"
+	case len(v.pending[0]) != 1 || len(v.queue[0]) != 1:
+		what = fmt.Sprintf("account with a fresh heartbeat was touched by eviction: pending %v queued %v", v.pending[0], v.queue[0])
+	}
+	if what == "" {
+		for _, f := range w.oracle(v, op{kind: "evict"}) {
+			what = f.clause + ": " + f.what
+			break
+		}
+	}
+	if what != "" {
+		rp := vh.WriteReplay(c.ReplayDir, "C20", "real-ticker", c.Seed, []string{"oracle: real eviction ticker scenario", what, "views: " + v.text}, lines)
+		c.Res.Fail("oracle", "", "real-ticker eviction: "+what, rp)
+	}
+}
+
+// raceExploration (thorough tier): `go run -race` of go/cmd/c20/race — concurrent submitters, resets, re-pricing and
+// readers on one pool. Exploration, not proof.
+func raceExploration(c *vh.Ctx) {
+	root := os.Getenv("VERIF_ROOT")
+	if root == "" {
+		root = "/verif"
+	}
+	goDir := filepath.Join(root, "go")
+	args := []string{"run", "-race", "-tags", "verif"}
+	if repo := vh.RepoRoot(); repo != "/repo" {
+		// scratch-worktree runs: same module file rewriting as ./check does
+		alt := filepath.Join(os.TempDir(), fmt.Sprintf("c20-race-%d.mod", os.Getpid()))
+		b, err := os.ReadFile(filepath.Join(goDir, "go.mod"))
+		if err == nil {
+			os.WriteFile(alt, []byte(strings.ReplaceAll(string(b), "=> /repo", "=> "+repo)), 0o644)
+			sum, _ := os.ReadFile(filepath.Join(repo, "go.sum"))
+			os.WriteFile(strings.TrimSuffix(alt, ".mod")+".sum", sum, 0o644)
+			defer os.Remove(alt)
+			defer os.Remove(strings.TrimSuffix(alt, ".mod") + ".sum")
+			args = append(args, "-modfile="+alt)
+		}
+	}
+	args = append(args, "./cmd/c20/race", "-seed", fmt.Sprint(c.Seed), "-seconds", "45")
+	ctx, cancel := context.WithTimeout(context.Background(), 6*time.Minute)
+	defer cancel()
+	cmd := exec.CommandContext(ctx, "go", args...)
+	cmd.Dir = goDir
+	cmd.Env = append(os.Environ(), "GOFLAGS=-mod=mod", "GOPROXY=off", "GOSUMDB=off", "GOTOOLCHAIN=local", "CGO_ENABLED=1")
+	out, err := cmd.CombinedOutput()
+	text := string(out)
+	c.Res.Dist("race-exploration-runs")
+	c.Res.Extra["race_exploration"] = lastLines(text, 6)
+	if strings.Contains(text, "WARNING: DATA RACE") || strings.Contains(text, "INVARIANT:") || (err != nil && !strings.Contains(text, "RACE-OK")) {
+		rp := vh.WriteReplay(c.ReplayDir, "C20", "race", c.Seed,
+			[]string{"oracle: concurrent exploration under the race detector (go run -race ./cmd/c20/race)", "re-run: cd /verif/go && go run -race -tags verif ./cmd/c20/race -seed " + fmt.Sprint(c.Seed) + " -seconds 45"},
+			strings.Split(lastLines(text, 60), "\n"))
+		what := "data race or invariant violation under concurrent use"
+		if err != nil && !strings.Contains(text, "DATA RACE") && !strings.Contains(text, "INVARIANT:") {
+			what = "race driver failed to run: " + err.Error()
+		}
+		c.Res.Fail("oracle", "", what, rp)
+	}
+}
+
+func lastLines(s string, n int) string {
+	ls := strings.Split(strings.TrimRight(s, "\n"), "\n")
+	if len(ls) > n {
+		ls = ls[len(ls)-n:]
+	}
+	return strings.Join(ls, "\n")
+}
